@@ -719,6 +719,12 @@ def check(case, d, labels):
                     (o["layout"] != "unlim" and I["dims"][0] != shape[0]):
                 raise Fail("dataset %s: stored rank/dims/number type differ" % o["name"], stored=I["dims"],
                            nt=I["nt"], want=shape, program=prog)
+            if o["layout"] == "unlim" and (I["dims"][0] > shape[0] or
+                                           (case["nsess"] == 1 and I["dims"][0] != shape[0])):
+                # the dimension record of a record variable may be stale (smaller) when the variable grew in a
+                # later session (known finding of C15); it never claims more records than were stored
+                raise Fail("dataset %s: the stored dimension record claims %d records, %d were stored" % (
+                    o["name"], I["dims"][0], shape[0]), stored=I["dims"], program=prog)
             want = be(m["arr"][:shape[0]], o["nt"]) if shape[0] else b""
             if "read" in ln:
                 lib = np.frombuffer(qq.res[ln["read"]].bufs[0], dtype=np.dtype(NTS[o["nt"]][1]).newbyteorder("="))
